@@ -22,3 +22,34 @@ func valueOnly(t types.Type, depth int) bool {
 	}
 	return false
 }
+
+// pureFunctional: all arguments and results are value-typed (strings, numbers, booleans, structs of those).
+func pureFunctional(argTypes []types.Type, sig *types.Signature) bool {
+	for _, t := range argTypes {
+		if t == nil || !valueOnly(t, 0) {
+			return false
+		}
+	}
+	for i := 0; i < sig.Results().Len(); i++ {
+		if !valueOnly(sig.Results().At(i).Type(), 0) {
+			return false
+		}
+	}
+	return true
+}
+
+// hasQuantCE: does the contract expression contain a quantifier (directly; spec expansions are not inspected)?
+func hasQuantCE(e *CE) bool {
+	if e == nil {
+		return false
+	}
+	if e.Kind == "quant" {
+		return true
+	}
+	for _, a := range e.Args {
+		if hasQuantCE(a) {
+			return true
+		}
+	}
+	return false
+}
